@@ -61,8 +61,10 @@ CHECKS = {
              "[release] and [tree] are in the written table at their documented places and survive every later section writer) and "
              "C04_variant_writer_stays_in_its_sections; C04_written_header_is_current_and_layered_flag; reader on the writer's table: "
              "C04_release_and_tree_read_back (whatever the reader returns for a table the writer produced carries the written release "
-             "name/short/version/is_layered and the tree's arch, platform set and integer timestamp); C17_general_mirror covers "
-             "[general]. That the reader succeeds, and the variant/image/checksum/stage2/media sections, are decided by the "
+             "name/short/version/is_layered and the tree's arch, platform set and integer timestamp), C04_integer_timestamp_read_back (any size: "
+             "int(str(z)) = z is proved), C04_stage2_read_back, C04_media_read_back, C04_checksums_read_back (every path gets exactly the "
+             "algorithm/value typed from its own text, no foreign path appears); C17_general_mirror covers "
+             "[general]. That the reader succeeds, and the variant and image sections, are decided by the "
              "docs_treeinfo correspondence: model "
              "writer vs real writer byte for byte; the section table the real parser produces from the written text is loaded by "
              "the model reader and compared with the re-read object; implementation-side oracle compares every fact and the "
@@ -98,7 +100,7 @@ CHECKS = {
              "exactly the rule table written from the documentation in Proofs/SpecRules.v). Tie: for each of "
              "the seven formats, valid objects with one field at any position replaced by a value outside its documented domain "
              "(rule table written from the documentation) are dumped by the real library and by the model; outcome classes are "
-             "compared; the oracle demands TypeError/ValueError.",
+             "compared; the oracle demands TypeError/ValueError. C06_label_language / C06_header_version_language: the regenerated label patterns accept exactly <name>-<int>.<int> for the names of the regenerated LABEL_NAMES table (the patterns are checked to be built from that table), the header-version pattern exactly <digits>.<digits> (one trailing newline admitted by Python's $, O1).",
         note="Partial: the 12 hand-modelled context-dependent validators are tied to the code by AST hash and the corruption "
              "correspondence (sampled), not by regeneration. Known findings K4 (element types of arches and "
              "path tables are not validated).",
@@ -114,7 +116,7 @@ CHECKS = {
              "loaded .treeinfo passed the validators the writer runs). Tie: valid current-version documents of the five JSON "
              "formats and .treeinfo texts, each with one corruption (other header type, mangled version, deleted section or "
              "required key, one value outside its documented domain at any position) are loaded by the real library and by the "
-             "model readers; accepted-vs-rejected is compared and, when accepted, the loaded object must be writable.",
+             "model readers; accepted-vs-rejected is compared and, when accepted, the loaded object must be writable. C07_header_version_language: the header-version gate accepts exactly <digits>.<digits>.",
         note="'load d = Ok x -> Valid x' is proved for images manifests, composeinfo and treeinfo (format 0.3 and later; pre-productmd "
              "treeinfo files are read by the heuristics of Model/TreeInfo00.v, tied by correspondence); rpms/modules/extra files "
              "have no per-entry validators. Reader coercions (bool(), int(), lower()) are part of the modelled reader (O10).",
@@ -222,7 +224,7 @@ CHECKS = {
              "accepted), C16_add_checksum_stable / C16_add_checksum_conflict. Tie: compute_checksum vs hashlib one-shot on real "
              "files of sizes straddling the 1 MiB chunk for every algorithm available by name; normpath, Checksums.add and "
              "Image.add_checksum op sequences vs the model; [checksums] sections mixing typed and bare digests loaded by the real "
-             "reader and by the model on the real parser's section table.",
+             "reader and by the model on the real parser's section table. C16_written_checksums_are_read_back_per_path: over the writer's table, every path of the written object is read back with the algorithm/value typed from its own text and no other path appears.",
         note="hashlib and os.path.normpath are trusted/corresponded, not verified; the streaming hypothesis is hashlib's documented behaviour.",
         design="DESIGN.md section 6 C16"),
     "C17": dict(
